@@ -65,6 +65,14 @@ Proof. vm_compute. reflexivity. Qed.
     for cls in ("UnitMulCompound", "UnitDivCompound"):
         for sc in fine[:(220 if c.tier == "quick" else len(fine))]:
             cases.append({"cls": cls, "threads": 2, "schedule": sc})
+    # different expressions for one new unit evaluated at the same time (a*b | b*a, a/b | b**-1*a): single preemptions and random schedules
+    for cls in ("UnitMulOrders", "UnitDivOrders"):
+        for sc in (scheds[:70] if c.tier == "quick" else scheds[::2]):
+            cases.append({"cls": cls, "threads": 2, "schedule": sc})
+        for sc in fine[:(40 if c.tier == "quick" else 400)]:
+            cases.append({"cls": cls, "threads": 2, "schedule": sc})
+        for _ in range(20 if c.tier == "quick" else 200):
+            cases.append({"cls": cls, "threads": 3, "schedule": [c.rng.randrange(3) for _ in range(40)]})
     # several worker processes in parallel
     import concurrent.futures
     chunks = [cases[i::8] for i in range(8)]
